@@ -82,6 +82,16 @@ theorem ArgsTie_parseProds (pv : PyVals V) (f : Func V P) : parseProdsGen pv f =
     ArgsTie_productValue, (ArgsTie_collectTree _).2]
   rfl
 
+/-- **Every keyword of `@task(...)` survives, whatever decorators were applied before.** In both branches of `task()`'s wrapper —
+the function already carries `pytask_meta` (a `@pytask.mark.*` sits below `@task`), or the metadata is created — the fields
+`after`, `id_`, `is_generator`, `kwargs`, `name`, `produces` are set from the decorator's keywords (so the model's `Func.kwargs` /
+`Func.produces` are what the user wrote, independent of the decorator order), and both branches add the `task` mark. -/
+theorem ArgsTie_taskDecorator {X : Type} (a : DecoArgs X) (old : X) :
+    metaGen Generated.Args.taskMetaExisting a old = a ∧ metaGen Generated.Args.taskMetaCreated a old = a ∧
+    (Generated.Args.taskMetaExisting.find? (fun kv => kv.1 == "markers")).map (·.2) = some "taskMark" ∧
+    (Generated.Args.taskMetaCreated.find? (fun kv => kv.1 == "markers")).map (·.2) = some "taskMark" := by
+  refine ⟨rfl, rfl, rfl, rfl⟩
+
 /-- `tree_util.py`: each wrapper the model's `leaves` / `map` / `mapWithPath` / `struct` / `paths` stand for is the optree function
 of the same name with `none_is_leaf=True` (so `None` is a leaf everywhere: `noneTree` is `.leaf`). -/
 theorem ArgsTie_treeUtil :
